@@ -79,7 +79,7 @@ def run_tlc(module: str, cfg: str | None = None, workers: int | str = "auto", en
     meta = tempfile.mkdtemp(prefix="tlcmeta-", dir=str(OUT))
     gc = ["-XX:+UseParallelGC"] if workers == "auto" or (isinstance(workers, int) and workers > 2) else \
         ["-XX:+UseSerialGC", "-XX:TieredStopAtLevel=4", "-XX:CICompilerCount=2"]
-    cmd = ["java"] + gc + [f"-Xmx{heap}"]
+    cmd = ["java"] + gc + [f"-Xmx{heap}", "-Xss64m"]     # deep recursion of the fold / rest operators on long pieces
     if deque:
         cmd.append("-Dtlc2.tool.queue.IStateQueue=StateDeque")
     cmd += ["-cp", f"{TLA_JAR}:{TLA_DEPS}", "tlc2.TLC", "-workers", str(workers), "-metadir", meta,
